@@ -1546,13 +1546,9 @@ impl<'s> Worker<'s> {
             match is_same_file_system(root_device, work.dent.path()) {
                 Ok(true) => true,
                 Ok(false) => false,
-                Err(err) => {
-                    let state = self.visitor.visit(Err(err));
-                    if state.is_quit() {
-                        return state;
-                    }
-                    false
-                }
+                // When we can't tell, the single threaded walker yields the
+                // error in place of the entry. Do the same.
+                Err(err) => return self.visitor.visit(Err(err)),
             }
         } else {
             true
